@@ -941,6 +941,82 @@ fn run_field_vs_builtin(idx: u64, acc: &mut Acc) {
     }
 }
 
+// ---------------------------------------------------------------------------
+// a stored program is evaluated under the bindings of the place that reads it, every time
+
+const READ_TWICE: [(&str, &str); 8] = [
+    // (main program, expected value as CEL text evaluated with x = 5)
+    ("[p] + [1, 2, 3].map(x, p)", "[50, 10, 20, 30]"),
+    ("[1, 2].map(x, p) + [p]", "[10, 20, 50]"),
+    ("p + [7].map(x, p)[0] + p", "170"),
+    ("[p, [1, 2].filter(x, p > 10), p]", "[50, [2], 50]"),
+    ("[1, 2].map(x, [p, [3].map(x, p)[0]])", "[[10, 30], [20, 30]]"),
+    ("[p, [4].reduce(acc, x, acc + p, 0), p]", "[50, 40, 50]"),
+    ("[1, 2].all(x, p == x * 10) && p == 50", "true"),
+    ("coalesce(p, 0) + [1].map(x, coalesce(p, 0))[0]", "60"),
+];
+
+fn run_read_twice(idx: u64, acc: &mut Acc) {
+    let (main, want_src) = READ_TWICE[idx as usize];
+    let mut ctx = CelContext::new();
+    let _ = ctx.add_program_str("p", "x * 10");
+    let _ = ctx.add_program_str("main", main);
+    let mut b = BindContext::new();
+    b.bind_param("x", CelValue::Int(5));
+    acc.nontrivial(&("read-twice", idx));
+    let want = real::eval(want_src, &[]);
+    for rep in 0..2 {
+        let got = real::exec_in(&mut ctx, "main", &b);
+        acc.eval();
+        acc.class(&got.class());
+        if !want.agrees(&got) {
+            acc.violation(
+                "a program read outside and inside a macro body is not evaluated under each place's bindings",
+                json!({"p": "x * 10", "main": main, "x": 5, "repetition": rep}),
+                want.show(),
+                got.show(),
+            );
+        }
+    }
+}
+
+// ---------------------------------------------------------------------------
+// failures that were absorbed do not use up the depth budget of what follows
+
+fn run_after_absorbed(idx: u64, acc: &mut Acc) {
+    // idx -> (how the failing reference is absorbed, how often, length of the chain that follows)
+    let absorbers = ["coalesce(q1, 0)", "(has(q1) ? 1 : 0)", "((has(cyc) || true) ? 0 : 1)", "((coalesce(cyc, 0) == 0 || true) ? 0 : 1)", "((size(cyc) == 1u || true) ? 0 : 1)"];
+    let d = unrank(idx, &[absorbers.len() as u64, 4, 3]);
+    let (ab, times, len) = (absorbers[d[0] as usize], d[1] as usize + 1, [2usize, 8, 16][d[2] as usize]);
+    let mut ctx = CelContext::new();
+    let _ = ctx.add_program_str("q1", "q2 + 1");
+    let _ = ctx.add_program_str("q2", "q3 + 1");
+    let _ = ctx.add_program_str("q3", "nothing + 1");
+    let _ = ctx.add_program_str("cyc", "cyc + 1");
+    let _ = ctx.add_program_str(&format!("c{}", len), "1");
+    for i in (0..len).rev() {
+        let _ = ctx.add_program_str(&format!("c{}", i), &format!("c{} + 1", i + 1));
+    }
+    let main = format!("{} + c0", vec![ab; times].join(" + "));
+    let _ = ctx.add_program_str("main", &main);
+    let b = BindContext::new();
+    acc.nontrivial(&("after-absorbed", idx));
+    // the same sum with the chain first: absorbing afterwards cannot matter
+    let _ = ctx.add_program_str("reference", &format!("c0 + {}", vec![ab; times].join(" + ")));
+    let want = real::exec_in(&mut ctx, "reference", &b);
+    let got = real::exec_in(&mut ctx, "main", &b);
+    acc.evals(2);
+    acc.class(&got.class());
+    if !want.agrees(&got) || !got.is_value() {
+        acc.violation(
+            &format!("a chain of {} programs fails after {} absorbed failure(s)", len + 1, if times == 1 { "one" } else { "several" }),
+            json!({"main": main, "q1": "q2 + 1", "q2": "q3 + 1", "q3": "nothing + 1", "cyc": "cyc + 1", "chain": format!("c0 .. c{} (ci := c(i+1) + 1)", len)}),
+            format!("as with the chain evaluated first: {}", want.show()),
+            got.show(),
+        );
+    }
+}
+
 pub fn replay_families(t: Tier) -> Vec<Family<'static>> {
     let (g, g4) = graph_sets(t);
     let g: &'static Graphs = Box::leak(Box::new(g));
@@ -949,6 +1025,8 @@ pub fn replay_families(t: Tier) -> Vec<Family<'static>> {
     vec![
         Family::new("collisions", 6 * 8 * IDENT_CTX.len() as u64, run_collision),
         Family::new("fields-named-like-built-ins", field_names().len() as u64, run_field_vs_builtin),
+        Family::new("read-outside-and-inside-a-macro", READ_TWICE.len() as u64, run_read_twice),
+        Family::new("chains-after-absorbed-failures", 5 * 4 * 3, run_after_absorbed),
         Family::new("acyclic-graphs", g.size(), move |i, a| g.run(i, a)),
         Family::new("acyclic-graphs-b", g4.size(), move |i, a| g4.run(i, a)),
         Family::new("json", j.vals.len() as u64, move |i, a| j.run(i, a)),
@@ -965,13 +1043,15 @@ pub fn run(t: Tier) -> i32 {
     let (g, g4) = graph_sets(t);
     let j = Jsons { vals: json_values() };
     rep.rule = format!(
-        "collisions: every subset of {{variable, stored program}} behind identifiers v and int (a type name) in 8 contexts (bare, list element, function argument, macro body, ?: branch, map value, coalesce, f-string), of {{bound function, macro}} in call position for g and int (a type constructor), field vs method for m.g and m.g(), and rebinding/re-adding through bind_param and through the JSON entry point in both orders; fields-named-like-built-ins: for every name of the function, macro and type tables a map holding a field of that name, bound directly, bound from JSON, written as a literal and reached through a loop variable: m.name, has(m.name) and coalesce(m.name, 0) read the field; graphs: ALL {} reference graphs on {} named programs (quick: 3 programs x the 9 core constructs plus 2 programs x all 18; thorough: 3 x 18 plus 4 x 9) with out-degree <= 1 where every edge goes through one of 18 referencing constructs (bare identifier, arithmetic operand, call argument, has, coalesce, f-string, ?: branch, and every macro site: map body over a list and over a map, map range, map/3, filter over a list and over a map, all, exists, exists_one, reduce step and seed): acyclic from p0 -> value by substitution (in-process), a cycle reachable from p0 -> an error, each run in child processes in two build profiles on an 8 MiB main stack and a 2 MiB thread stack: never an abort; chains: length 1..64 through each of the 18 constructs, without a loop and with a 1-element and a 64-element macro loop inside the middle link, same child set-up: correct value up to 16 links (bare, arithmetic), 15 links = 16 programs (every other single construct) and 4 links (the two edges that stack two constructs), value or error beyond, never an abort, 64 iterations give the same outcome class as one; fanout-cycles: for each of the 18 constructs a self-loop and a two-cycle whose program reads the cycle twice (and a self-loop read twice inside a list): the evaluation returns an error within 90 s of processor time in both profiles (absorbing the depth error into a value would make it visit 2^32 nodes); json: {} JSON values of depth <= 2 over 9 atoms bound from JSON vs bound directly (structural equality, ==, inside a list, type). Non-trivial = every case",
+        "collisions: every subset of {{variable, stored program}} behind identifiers v and int (a type name) in 8 contexts (bare, list element, function argument, macro body, ?: branch, map value, coalesce, f-string), of {{bound function, macro}} in call position for g and int (a type constructor), field vs method for m.g and m.g(), and rebinding/re-adding through bind_param and through the JSON entry point in both orders; fields-named-like-built-ins: for every name of the function, macro and type tables a map holding a field of that name, bound directly, bound from JSON, written as a literal and reached through a loop variable: m.name, has(m.name) and coalesce(m.name, 0) read the field; read-outside-and-inside-a-macro: 8 programs that read the stored program p := x * 10 both outside a macro and inside one whose loop variable is x (map, filter, reduce, all, nested, through coalesce): every reading sees the bindings of its place; chains-after-absorbed-failures: a failing reference (an unbound name three programs deep, or a cycle) absorbed 1..4 times by coalesce, has, or has/coalesce/a call argument under || true, followed by a chain of 3, 9 or 17 programs: same value as with the chain evaluated first; graphs: ALL {} reference graphs on {} named programs (quick: 3 programs x the 9 core constructs plus 2 programs x all 18; thorough: 3 x 18 plus 4 x 9) with out-degree <= 1 where every edge goes through one of 18 referencing constructs (bare identifier, arithmetic operand, call argument, has, coalesce, f-string, ?: branch, and every macro site: map body over a list and over a map, map range, map/3, filter over a list and over a map, all, exists, exists_one, reduce step and seed): acyclic from p0 -> value by substitution (in-process), a cycle reachable from p0 -> an error, each run in child processes in two build profiles on an 8 MiB main stack and a 2 MiB thread stack: never an abort; chains: length 1..64 through each of the 18 constructs, without a loop and with a 1-element and a 64-element macro loop inside the middle link, same child set-up: correct value up to 16 links (bare, arithmetic), 15 links = 16 programs (every other single construct) and 4 links (the two edges that stack two constructs), value or error beyond, never an abort, 64 iterations give the same outcome class as one; fanout-cycles: for each of the 18 constructs a self-loop and a two-cycle whose program reads the cycle twice (and a self-loop read twice inside a list): the evaluation returns an error within 90 s of processor time in both profiles (absorbing the depth error into a value would make it visit 2^32 nodes); json: {} JSON values of depth <= 2 over 9 atoms bound from JSON vs bound directly (structural equality, ==, inside a list, type). Non-trivial = every case",
         g.size() + g4.size(),
         format!("{} resp. {}", g.n, g4.n),
         j.vals.len()
     );
     rep.run_family(Family::new("collisions", 6 * 8 * IDENT_CTX.len() as u64, run_collision));
     rep.run_family(Family::new("fields-named-like-built-ins", field_names().len() as u64, run_field_vs_builtin));
+    rep.run_family(Family::new("read-outside-and-inside-a-macro", READ_TWICE.len() as u64, run_read_twice));
+    rep.run_family(Family::new("chains-after-absorbed-failures", 5 * 4 * 3, run_after_absorbed));
     rep.run_family(Family::new("acyclic-graphs", g.size(), |i, a| g.run(i, a)));
     run_cyclic_graphs(&g, &mut rep);
     let mut total_graphs = g.size();
